@@ -6,7 +6,7 @@ use crate::report::{self, Report, Violation};
 use serde_json::json;
 use std::collections::{BTreeMap, BTreeSet};
 
-const FORMS: [&str; 21] = [
+const FORMS: [&str; 23] = [
     "use-single", "use-group", "use-nested-group", "use-glob", "qualified-path", "qualified-nested-path", "use-crate", "use-super", "use-self",
     // the target as a generic argument of a type of a third crate
     "qualified-generic-of-qualified", "qualified-generic-of-used", "used-generic-of-qualified", "qualified-generic-of-nested-qualified",
@@ -16,6 +16,8 @@ const FORMS: [&str; 21] = [
     "use-group-function-after-type", "use-group-function-before-type", "use-group-nested-with-self-and-function",
     // a glob and explicit names from the same crate (the glob-only type and the named one are both used)
     "use-glob-plus-named", "use-named-plus-glob-plus-qualified",
+    // the referring file also declares an item whose type parameter has the target's name (parameters are scoped to their item)
+    "use-single-beside-item-with-parameter-of-that-name", "qualified-path-beside-item-with-parameter-of-that-name",
 ];
 
 fn third_crate(form: &str) -> bool {
@@ -65,6 +67,8 @@ fn workspace(c: &Case) -> Vec<(String, String)> {
         "use-glob-plus-named" => (format!("use {tc}::*;\nuse {tc}::Sibling;\n#[typeshare]\npub struct AlsoUses {{ pub s: Sibling }}\n"), "Target".to_string()),
         "use-named-plus-glob-plus-qualified" => (format!("use {tc}::Sibling;\nuse {tc}::*;\n#[typeshare]\npub struct AlsoUses {{ pub s: Sibling, pub q: Vec<{tc}::Sibling> }}\n"), "Target".to_string()),
         "qualified-path" => (String::new(), format!("{tc}::Target")),
+        "use-single-beside-item-with-parameter-of-that-name" => (format!("use {tc}::Target;\n#[typeshare]\npub struct Shelf<Target> {{ pub items: Vec<Target>, pub n: u32 }}\n"), "Target".to_string()),
+        "qualified-path-beside-item-with-parameter-of-that-name" => ("#[typeshare]\n#[serde(tag = \"type\", content = \"content\")]\npub enum Slot<Target> { Full(Target), Empty }\n".to_string(), format!("{tc}::Target")),
         "qualified-nested-path" => (String::new(), format!("{tc}::inner::deep::Target")),
         "qualified-generic-of-qualified" => (String::new(), format!("shapes::Page<{tc}::Target>")),
         "qualified-generic-of-used" => (format!("use {tc}::Target;\n"), "shapes::Page<Target>".to_string()),
@@ -146,20 +150,32 @@ fn def_summary(d: &Def) -> String {
 }
 
 fn referenced_names(of: &OutFile) -> BTreeSet<String> {
-    let mut v = Vec::new();
+    let mut all = Vec::new();
     for d in &of.defs {
-        match d {
-            Def::Struct(s) => s.fields.iter().for_each(|f| f.ty.names(&mut v)),
-            Def::Alias(a) => a.ty.names(&mut v),
-            Def::Enum(e) => e.variants.iter().for_each(|x| match &x.payload {
-                Payload::Type(t, _) | Payload::Inner(t) => t.names(&mut v),
-                Payload::Inline(fs) => fs.iter().for_each(|f| f.ty.names(&mut v)),
-                Payload::None => {}
-            }),
-            Def::Const(_) => {}
-        }
+        let mut v = Vec::new();
+        // the generic parameters of a definition are in scope inside it only: there they are not references to types
+        let own_params: &[String] = match d {
+            Def::Struct(s) => {
+                s.fields.iter().for_each(|f| f.ty.names(&mut v));
+                &s.generics
+            }
+            Def::Alias(a) => {
+                a.ty.names(&mut v);
+                &a.generics
+            }
+            Def::Enum(e) => {
+                e.variants.iter().for_each(|x| match &x.payload {
+                    Payload::Type(t, _) | Payload::Inner(t) => t.names(&mut v),
+                    Payload::Inline(fs) => fs.iter().for_each(|f| f.ty.names(&mut v)),
+                    Payload::None => {}
+                });
+                &e.generics
+            }
+            Def::Const(_) => &[],
+        };
+        all.extend(v.into_iter().filter(|n| !own_params.contains(n)));
     }
-    v.into_iter().collect()
+    all.into_iter().collect()
 }
 
 struct Obs {
@@ -321,6 +337,14 @@ fn judge(c: &Case, o: &Obs, vios: &mut Vec<Violation>) -> (u64, String) {
                 if !ok {
                     outcome = "import-of-undefined".into();
                     vios.push(Violation { sig: format!("C14|{}|import-names-undefined-type|{shape}", lang.name()), detail: detail(&format!("{f} imports {n} from {m}, which does not define it")) });
+                }
+                // … nor a type this file does not mention (a mapped type is written under its mapped name: the other
+                // crate's definition of the Rust name is not what the file uses)
+                judgements += 1;
+                // (a glob `use` brings every type of that crate in, used or not: by design)
+                if !referenced.contains(n) && !c.form.contains("glob") {
+                    outcome = "import-unused".into();
+                    vios.push(Violation { sig: format!("C14|{}|import-of-a-type-the-file-does-not-use|{shape}", lang.name()), detail: detail(&format!("{f} imports {n} from {m} but refers to no type of that name")) });
                 }
             }
         }
